@@ -1,1 +1,294 @@
-fn main(){}
+//! `driver gen <cases.jsonl> <results.jsonl>` - see /verif/harness/DRIVER_SPEC.md.
+
+pub mod coqfmt;
+pub mod extract;
+pub mod irdump;
+pub mod tokpat;
+
+use serde_json::{json, Value};
+use std::io::{BufRead, BufWriter, Write};
+use std::panic::{catch_unwind, AssertUnwindSafe};
+use std::sync::atomic::{AtomicUsize, Ordering};
+use std::sync::Mutex;
+use wgsl_to_wgpu::{CreateModuleError, MatrixVectorTypes, ValidationOptions, WriteOptions};
+
+fn panic_message(p: Box<dyn std::any::Any + Send>) -> String {
+    if let Some(s) = p.downcast_ref::<&str>() {
+        s.to_string()
+    } else if let Some(s) = p.downcast_ref::<String>() {
+        s.clone()
+    } else {
+        "<non-string panic payload>".to_string()
+    }
+}
+
+fn opt_bool(opts: &Value, key: &str) -> bool {
+    opts.get(key).and_then(Value::as_bool).unwrap_or(false)
+}
+
+fn write_options(opts: &Value) -> Result<WriteOptions, String> {
+    let mv = match opts.get("mv").and_then(Value::as_str).unwrap_or("Rust") {
+        "Rust" => MatrixVectorTypes::Rust,
+        "Glam" => MatrixVectorTypes::Glam,
+        "Nalgebra" => MatrixVectorTypes::Nalgebra,
+        other => return Err(format!("unknown mv `{}`", other)),
+    };
+    Ok(WriteOptions {
+        derive_bytemuck_vertex: opt_bool(opts, "bm_vertex"),
+        derive_bytemuck_host_shareable: opt_bool(opts, "bm_host"),
+        derive_encase_host_shareable: opt_bool(opts, "encase"),
+        derive_serde: opt_bool(opts, "serde"),
+        matrix_vector_types: mv,
+        rustfmt: opt_bool(opts, "rustfmt"),
+        validate: if opt_bool(opts, "validate") {
+            Some(ValidationOptions::default())
+        } else {
+            None
+        },
+    })
+}
+
+/// Per entry point: indices of the used globals, and the sampling pairs.
+fn uses_and_sampling(module: &naga::Module, info: &naga::valid::ModuleInfo) -> (Value, Value) {
+    let mut uses = Vec::new();
+    let mut sampling = Vec::new();
+    for i in 0..module.entry_points.len() {
+        let fi = info.get_entry_point(i);
+        let u: Vec<usize> = module
+            .global_variables
+            .iter()
+            .filter(|(h, _)| !fi[*h].is_empty())
+            .map(|(h, _)| h.index())
+            .collect();
+        let mut sp: Vec<(usize, usize)> = fi
+            .sampling_set
+            .iter()
+            .map(|k| (k.image.index(), k.sampler.index()))
+            .collect();
+        sp.sort();
+        uses.push(json!(u));
+        sampling.push(json!(sp.iter().map(|(a, b)| vec![*a, *b]).collect::<Vec<_>>()));
+    }
+    (Value::Array(uses), Value::Array(sampling))
+}
+
+fn run_case(case: &Value) -> Value {
+    let id = case.get("id").cloned().unwrap_or(Value::Null);
+    let mut res = json!({
+        "id": id, "parse_ok": false, "parse_err": null, "valid": null, "valid_err": null,
+        "ir": null, "result": null, "err": null, "panic_msg": null, "text": null, "out": null,
+        "extract_err": null, "uses": null, "sampling": null, "features": [],
+    });
+    let wgsl = match case.get("wgsl").and_then(Value::as_str) {
+        Some(w) => w,
+        None => {
+            res["parse_err"] = json!("driver: case has no string field `wgsl`");
+            return res;
+        }
+    };
+    let include = case.get("include").and_then(Value::as_str);
+    let want_text = case.get("want_text").and_then(Value::as_bool).unwrap_or(false);
+    let options = match write_options(case.get("opts").unwrap_or(&Value::Null)) {
+        Ok(o) => o,
+        Err(e) => {
+            res["parse_err"] = json!(format!("driver: {}", e));
+            return res;
+        }
+    };
+
+    // --- naga, called directly -----------------------------------------
+    match catch_unwind(AssertUnwindSafe(|| naga::front::wgsl::parse_str(wgsl))) {
+        Ok(Ok(module)) => {
+            res["parse_ok"] = json!(true);
+            match catch_unwind(AssertUnwindSafe(|| irdump::dump_module(&module))) {
+                Ok(ir) => res["ir"] = json!(ir),
+                Err(p) => res["ir"] = json!(format!("(* driver: dump panicked: {} *)", panic_message(p))),
+            }
+            res["features"] = json!(irdump::features(&module));
+            let validated = catch_unwind(AssertUnwindSafe(|| {
+                naga::valid::Validator::new(
+                    naga::valid::ValidationFlags::all(),
+                    naga::valid::Capabilities::all(),
+                )
+                .validate(&module)
+            }));
+            match validated {
+                Ok(Ok(info)) => {
+                    res["valid"] = json!(true);
+                    let (u, sp) = uses_and_sampling(&module, &info);
+                    res["uses"] = u;
+                    res["sampling"] = sp;
+                }
+                Ok(Err(e)) => {
+                    res["valid"] = json!(false);
+                    res["valid_err"] = json!(e.emit_to_string(wgsl));
+                }
+                Err(p) => {
+                    res["valid"] = json!(false);
+                    res["valid_err"] = json!(format!("validator panicked: {}", panic_message(p)));
+                }
+            }
+        }
+        Ok(Err(e)) => {
+            res["parse_err"] = json!(e.emit_to_string(wgsl));
+        }
+        Err(p) => {
+            res["parse_err"] = json!(format!("parser panicked: {}", panic_message(p)));
+        }
+    }
+
+    // --- the generator --------------------------------------------------
+    let generated = catch_unwind(AssertUnwindSafe(|| match include {
+        None => wgsl_to_wgpu::create_shader_module_embedded(wgsl, options),
+        Some(path) => wgsl_to_wgpu::create_shader_module(wgsl, path, options),
+    }));
+    match generated {
+        Ok(Ok(text)) => {
+            res["result"] = json!("ok");
+            let extracted = catch_unwind(AssertUnwindSafe(|| extract::extract(&text)))
+                .unwrap_or_else(|p| Err(format!("extractor panicked: {}", panic_message(p))));
+            match extracted {
+                Ok(out) => {
+                    res["out"] = json!(out);
+                    if want_text {
+                        res["text"] = json!(text);
+                    }
+                }
+                Err(e) => {
+                    res["extract_err"] = json!(e);
+                    res["text"] = json!(text);
+                }
+            }
+        }
+        Ok(Err(e)) => {
+            res["result"] = json!("err");
+            let display = e.to_string();
+            let (variant, binding) = match &e {
+                CreateModuleError::NonConsecutiveBindGroups => ("NonConsecutiveBindGroups", None),
+                CreateModuleError::DuplicateBinding { binding } => ("DuplicateBinding", Some(*binding)),
+                CreateModuleError::ParseError { .. } => ("ParseError", None),
+                CreateModuleError::ValidationError { .. } => ("ValidationError", None),
+                #[allow(unreachable_patterns)]
+                _ => ("Unknown", None),
+            };
+            res["err"] = json!({"variant": variant, "binding": binding, "display": display});
+        }
+        Err(p) => {
+            res["result"] = json!("panic");
+            res["panic_msg"] = json!(panic_message(p));
+        }
+    }
+    res
+}
+
+fn gen(cases_path: &str, results_path: &str) -> Result<(), String> {
+    let input = std::fs::File::open(cases_path).map_err(|e| format!("{}: {}", cases_path, e))?;
+    let mut lines: Vec<String> = Vec::new();
+    for l in std::io::BufReader::new(input).lines() {
+        let l = l.map_err(|e| format!("{}: {}", cases_path, e))?;
+        if !l.trim().is_empty() {
+            lines.push(l);
+        }
+    }
+    let total = lines.len();
+    let results: Mutex<Vec<Option<String>>> = Mutex::new(vec![None; total]);
+    let next = AtomicUsize::new(0);
+    const CHUNK: usize = 4;
+    let threads = std::thread::available_parallelism()
+        .map(|n| n.get())
+        .unwrap_or(4)
+        .min(total.div_ceil(CHUNK).max(1));
+
+    std::thread::scope(|scope| {
+        for t in 0..threads {
+            let lines = &lines;
+            let results = &results;
+            let next = &next;
+            std::thread::Builder::new()
+                .name(format!("worker{}", t))
+                // the generator recurses over call graphs and types
+                .stack_size(512 << 20)
+                .spawn_scoped(scope, move || loop {
+                    let start = next.fetch_add(CHUNK, Ordering::SeqCst);
+                    if start >= total {
+                        break;
+                    }
+                    for i in start..(start + CHUNK).min(total) {
+                        let out = match serde_json::from_str::<Value>(&lines[i]) {
+                            Ok(case) => catch_unwind(AssertUnwindSafe(|| run_case(&case)))
+                                .unwrap_or_else(|p| {
+                                    json!({"id": case.get("id").cloned().unwrap_or(Value::Null),
+                                           "driver_panic": panic_message(p)})
+                                }),
+                            Err(e) => json!({"id": null, "driver_error": format!("bad case line {}: {}", i + 1, e)}),
+                        };
+                        let line = serde_json::to_string(&out).expect("serialize");
+                        results.lock().unwrap()[i] = Some(line);
+                    }
+                })
+                .expect("spawn worker");
+        }
+    });
+
+    let output = std::fs::File::create(results_path).map_err(|e| format!("{}: {}", results_path, e))?;
+    let mut w = BufWriter::new(output);
+    for r in results.into_inner().unwrap() {
+        let line = r.ok_or_else(|| "internal: missing result".to_string())?;
+        w.write_all(line.as_bytes()).map_err(|e| e.to_string())?;
+        w.write_all(b"\n").map_err(|e| e.to_string())?;
+    }
+    w.flush().map_err(|e| e.to_string())
+}
+
+fn main() {
+    // Panics of the generator are expected outcomes; print nothing.
+    std::panic::set_hook(Box::new(|_| {}));
+    let args: Vec<String> = std::env::args().collect();
+    let code = match args.get(1).map(String::as_str) {
+        Some("gen") if args.len() == 4 => match gen(&args[2], &args[3]) {
+            Ok(()) => 0,
+            Err(e) => {
+                eprintln!("driver: {}", e);
+                1
+            }
+        },
+        // debugging helpers: print the `out` term of a generated file / the `module` term of a shader
+        Some("extract") if args.len() == 3 => match std::fs::read_to_string(&args[2]) {
+            Ok(text) => match extract::extract(&text) {
+                Ok(out) => {
+                    println!("{}", out);
+                    0
+                }
+                Err(e) => {
+                    eprintln!("extract_err: {}", e);
+                    1
+                }
+            },
+            Err(e) => {
+                eprintln!("driver: {}: {}", args[2], e);
+                1
+            }
+        },
+        Some("ir") if args.len() == 3 => match std::fs::read_to_string(&args[2]) {
+            Ok(wgsl) => match naga::front::wgsl::parse_str(&wgsl) {
+                Ok(module) => {
+                    println!("{}", irdump::dump_module(&module));
+                    0
+                }
+                Err(e) => {
+                    eprintln!("parse_err: {}", e.emit_to_string(&wgsl));
+                    1
+                }
+            },
+            Err(e) => {
+                eprintln!("driver: {}: {}", args[2], e);
+                1
+            }
+        },
+        _ => {
+            eprintln!("usage: driver gen <cases.jsonl> <results.jsonl>\n       driver extract <generated.rs>\n       driver ir <shader.wgsl>");
+            2
+        }
+    };
+    std::process::exit(code);
+}
